@@ -373,8 +373,10 @@ use private::SealedItem;
 pub enum Bech32mZip316 {}
 impl Checksum for Bech32mZip316 {
     type MidstateRepr = <Bech32m as Checksum>::MidstateRepr;
-    // l^MAX from ZIP 316.
-    const CODE_LENGTH: usize = 4194368;
+    // The bech32 crate applies this bound to the length of the encoded *string* in
+    // characters: the longest possible HRP (83), the separator, the base32 form of a
+    // jumbled message of l^MAX = 4194368 bytes (ZIP 316), and the checksum.
+    const CODE_LENGTH: usize = 83 + 1 + (4194368usize * 8).div_ceil(5) + Bech32m::CHECKSUM_LENGTH;
     const CHECKSUM_LENGTH: usize = Bech32m::CHECKSUM_LENGTH;
     const GENERATOR_SH: [u32; 5] = Bech32m::GENERATOR_SH;
     const TARGET_RESIDUE: u32 = Bech32m::TARGET_RESIDUE;
